@@ -679,7 +679,7 @@ def c15(ctx):
 def c17(ctx):
     maxlen = 4 if ctx.tier == "thorough" else 3
     cases = os.path.join(ctx.work, "backend.ndjson")
-    st = ctx.tlc("MC_Backend", {"MaxLen": maxlen}, invariants=["TypeInv", "LawRemaining", "LawSpace", "LawWriteRead", "LawSeek", "LawReverse", "LawIterSticky", "Emit"], emit_to=cases)
+    st = ctx.tlc("MC_Backend", {"MaxLen": maxlen}, invariants=["TypeInv", "LawRemaining", "LawSpace", "LawWriteRead", "LawSeek", "LawExtend", "LawReverse", "LawIterSticky", "Emit"], emit_to=cases)
     if st["spec_violation"]:
         ctx.violation("specification law %s fails:\n%s" % (st["spec_violation"], st.get("counterexample", "")), {"k": "spec", "module": "MC_Backend"})
         return
